@@ -15,7 +15,7 @@ ID = "C19"
 LEVEL = "exploration"
 BUDGET = {"quick": 50, "thorough": 600}
 QUICK_CASES = 1000  # generator items in the quick tier (fixed amount of work; BUDGET is then only a safety cap)
-FLOOR = {"quick": 20000, "thorough": 20000}
+FLOOR = {"quick": 20000, "thorough": 20000}  # conclusive cases below which a run is inconclusive (the thorough tier is time-budgeted: same floor)
 TIMEOUT = 120
 REQUIRED_OBS = ["frame_lists", "fragmentations", "exhaustive_fragmentations", "sessions", "requests_sent", "replies_verified", "iopub_brackets_verified", "results_checked", "errors_checked", "stdout_checked", "corrupted_requests", "corruptions_rejected", "second_subscriber_sessions"]
 RULE = (
